@@ -187,6 +187,7 @@ func init() {
 	Properties["C08"] = &PropertySpec{
 		Modules: bt,
 		Rules: []Rule{
+			Only(R48(), `LeveldbDiskStorage`),
 			Only(R44(), `server\.tables`),
 			R21(),
 			Only(R01(nil), `/table\.rows/call (Clear|Close)`),
@@ -198,6 +199,7 @@ func init() {
 	Properties["C09"] = &PropertySpec{
 		Modules: st,
 		Rules: []Rule{
+			Only(R48(), `filestore`),
 			R22(),
 			R27(),
 		},
@@ -220,6 +222,7 @@ func init() {
 	Properties["C11"] = &PropertySpec{
 		Modules: st,
 		Rules: []Rule{
+			Only(R48(), `filestore`),
 			Only(R17(), `handleGcsListBucket`, `makeBucketListResults`),
 			R27(),
 			Only(R16(3, core.PkgGcsemu, core.PkgGcsutil), fns("(*GcsEmu).makeBucketListResults")),
